@@ -973,3 +973,176 @@ Example agree_nonvacuous :
      CRetr [nm; nx; nf] 1; CRnfr [nm]; CRnto [nd; ne; nm]; CList [nd; ne]; CDele [nd; ne; nm; nx; nf];
      CRmd [nd; ne; nm; nx]; CRmd [nd]; CCwd [nd]; CMlst [ng]; CRnfr [ng]; CRnto [nm; nx]] = true.
 Proof. split; [exact wt0_wf|vm_compute; reflexivity]. Qed.
+
+(* ---- 9. API level: PathIO and AsyncPathIO ---- *)
+(* A row of Gen.PathIOTable.table: (class, method, decorator stack outermost first, signature,
+   forwarded call).  The semantics of a forwarded call is ANY function of the call text, the
+   signature, the arguments and the state (`interp`, universally quantified: in particular what
+   pathlib and the kernel really do); the decorators are modelled:
+     universal_exception  turns the raised exception into PathIOError(reason=exc): the same outcome
+                          tagged differently -- identity on `raw` (RRaise e stands for it);
+     defend_file_methods  identity for file objects that come from _open (the API contract);
+     _blocking_io         loop.run_in_executor(executor, partial(f, self, *args, **kwargs)) returns
+                          f's result or raises f's exception: identity on outcomes;
+     with_timeout         asyncio.wait_for(coro, timeout): identity when timeout is None, and when
+                          the call finishes before the timeout; TimeoutError otherwise. *)
+Definition row := (Z * list Z * list (list Z) * list Z * list Z)%type.
+Definition r_class (r : row) : Z := fst (fst (fst (fst r))).
+Definition r_method (r : row) : list Z := snd (fst (fst (fst r))).
+Definition r_decos (r : row) : list (list Z) := snd (fst (fst r)).
+Definition r_sig (r : row) : list Z := snd (fst r).
+Definition r_call (r : row) : list Z := snd r.
+
+Definition find_row (tbl : list row) (cls : Z) (m : list Z) : option row :=
+  find (fun r => (r_class r =? cls) && name_eqb (r_method r) m) tbl.
+
+Section Api.
+  Variables (n_ue n_wt n_bio n_defend : list Z).
+  Variables (V S : Type).
+
+  Inductive raw := RRet (v : V) | RRaise (e : Z).
+
+  Variable interp : list Z -> list Z -> sx -> S -> raw * S.
+
+  Definition with_timeout_sem (timeout : option Z) (dur : Z) (r : raw) : raw :=
+    match timeout with
+    | None => r
+    | Some tau => if dur <? tau then r else RRaise 110
+    end.
+  Definition blocking_io_sem (r : raw) : raw := r.
+
+  Lemma with_timeout_none_blocking_io_id dur r : with_timeout_sem None dur (blocking_io_sem r) = r.
+  Proof. reflexivity. Qed.
+
+  Lemma with_timeout_in_time tau dur r : dur < tau -> with_timeout_sem (Some tau) dur (blocking_io_sem r) = r.
+  Proof. intro H. cbn. assert (dur <? tau = true) as -> by lia. reflexivity. Qed.
+
+  Definition deco_sem (timeout : option Z) (dur : Z) (d : list Z) : option (raw -> raw) :=
+    if name_eqb d n_wt then Some (with_timeout_sem timeout dur)
+    else if name_eqb d n_bio then Some blocking_io_sem
+    else if name_eqb d n_defend then Some (fun r => r)
+    else if name_eqb d n_ue then Some (fun r => r)
+    else None.
+
+  Fixpoint stack_sem (timeout : option Z) (dur : Z) (ds : list (list Z)) : option (raw -> raw) :=
+    match ds with
+    | [] => Some (fun r => r)
+    | d :: rest =>
+        match deco_sem timeout dur d, stack_sem timeout dur rest with
+        | Some f, Some g => Some (fun r => f (g r))
+        | _, _ => None
+        end
+    end.
+
+  (* one API call: (method, arguments, how long the underlying call takes) *)
+  Definition aop := (list Z * sx * Z)%type.
+
+  Definition api_step (tbl : list row) (cls : Z) (timeout : option Z) (o : aop) (s : S) : raw * S :=
+    let '(m, args, dur) := o in
+    match find_row tbl cls m with
+    | None => (RRaise 101, s)
+    | Some r =>
+        match stack_sem timeout dur (r_decos r) with
+        | None => (RRaise 101, s)
+        | Some f => let '(x, s') := interp (r_sig r) (r_call r) args s in (f x, s')
+        end
+    end.
+
+  Fixpoint api_run (tbl : list row) (cls : Z) (timeout : option Z) (os : list aop) (s : S) : list raw * S :=
+    match os with
+    | [] => ([], s)
+    | o :: rest =>
+        let '(x, s') := api_step tbl cls timeout o s in
+        let '(xs, s'') := api_run tbl cls timeout rest s' in (x :: xs, s'')
+    end.
+
+  (* closed obligations over the generated table *)
+  Definition same_calls (tbl : list row) (ops : list (list Z)) : bool :=
+    forallb (fun m =>
+               match find_row tbl 0 m, find_row tbl 1 m with
+               | Some a, Some b =>
+                   name_eqb (r_sig a) (r_sig b) && name_eqb (r_call a) (r_call b)
+                   && negb (match r_call a with [] => true | _ => false end)
+               | _, _ => false
+               end) ops.
+
+  Definition stacks_known (tbl : list row) : bool :=
+    forallb (fun r => match stack_sem None 0 (r_decos r) with Some _ => true | None => false end) tbl.
+
+  Definition all_wrapped (tbl : list row) : bool :=
+    forallb (fun r => match r_decos r with d :: _ => name_eqb d n_ue | [] => false end) tbl.
+
+  (* every decorator is the identity on outcomes when the timeout cannot fire *)
+  Definition quiet (timeout : option Z) (dur : Z) : Prop :=
+    match timeout with None => True | Some tau => dur < tau end.
+
+  Lemma deco_sem_id timeout dur d f : quiet timeout dur -> deco_sem timeout dur d = Some f -> forall r, f r = r.
+  Proof.
+    unfold deco_sem. intros Q H r.
+    destruct (name_eqb d n_wt).
+    - inversion H; subst. destruct timeout as [tau|]; cbn in *; [|reflexivity].
+      assert (dur <? tau = true) as -> by lia. reflexivity.
+    - destruct (name_eqb d n_bio); [inversion H; reflexivity|].
+      destruct (name_eqb d n_defend); [inversion H; reflexivity|].
+      destruct (name_eqb d n_ue); [inversion H; reflexivity|discriminate].
+  Qed.
+
+  Lemma stack_sem_id timeout dur ds : forall f,
+    quiet timeout dur -> stack_sem timeout dur ds = Some f -> forall r, f r = r.
+  Proof.
+    induction ds as [|d rest IH]; intros f Q H r; cbn in H; [inversion H; reflexivity|].
+    destruct (deco_sem timeout dur d) as [f1|] eqn:E1; [|discriminate].
+    destruct (stack_sem timeout dur rest) as [g|] eqn:E2; [|discriminate].
+    inversion H; subst. rewrite (IH g Q eq_refl r). apply (deco_sem_id _ _ _ _ Q E1).
+  Qed.
+
+  Lemma deco_sem_defined t1 d1 t2 d2 d f : deco_sem t1 d1 d = Some f -> exists g, deco_sem t2 d2 d = Some g.
+  Proof.
+    unfold deco_sem. destruct (name_eqb d n_wt); [eauto|]. destruct (name_eqb d n_bio); [eauto|].
+    destruct (name_eqb d n_defend); [eauto|]. destruct (name_eqb d n_ue); [eauto|discriminate].
+  Qed.
+
+  Lemma stack_sem_defined t1 d1 t2 d2 ds : forall f,
+    stack_sem t1 d1 ds = Some f -> exists g, stack_sem t2 d2 ds = Some g.
+  Proof.
+    induction ds as [|d rest IH]; intros f H; cbn in *; [eauto|].
+    destruct (deco_sem t1 d1 d) as [f1|] eqn:E1; [|discriminate].
+    destruct (stack_sem t1 d1 rest) as [g1|] eqn:E2; [|discriminate].
+    destruct (deco_sem_defined _ _ t2 d2 _ _ E1) as [f2 ->]. destruct (IH g1 eq_refl) as [g2 ->]. eauto.
+  Qed.
+
+  Lemma find_row_in tbl cls m r : find_row tbl cls m = Some r -> In r tbl.
+  Proof. unfold find_row. intro H. apply find_some in H. tauto. Qed.
+
+  Lemma api_step_equal tbl ops timeout m args dur s :
+    same_calls tbl ops = true -> stacks_known tbl = true -> In m ops -> quiet timeout dur ->
+    api_step tbl 0 timeout (m, args, dur) s = api_step tbl 1 timeout (m, args, dur) s.
+  Proof.
+    intros SC SK Hm Q. unfold same_calls in SC. rewrite forallb_forall in SC. specialize (SC m Hm).
+    unfold stacks_known in SK. rewrite forallb_forall in SK. unfold api_step.
+    destruct (find_row tbl 0 m) as [a|] eqn:Ea; [|discriminate].
+    destruct (find_row tbl 1 m) as [b|] eqn:Eb; [|discriminate].
+    apply andb_true_iff in SC as [SC _]. apply andb_true_iff in SC as [S1 S2].
+    apply name_eqb_eq in S1, S2. rewrite S1, S2.
+    pose proof (SK a (find_row_in _ _ _ _ Ea)) as Ka. pose proof (SK b (find_row_in _ _ _ _ Eb)) as Kb.
+    destruct (stack_sem None 0 (r_decos a)) as [fa0|] eqn:Fa0; [|discriminate].
+    destruct (stack_sem None 0 (r_decos b)) as [fb0|] eqn:Fb0; [|discriminate].
+    destruct (stack_sem_defined None 0 timeout dur _ _ Fa0) as [fa Fa].
+    destruct (stack_sem_defined None 0 timeout dur _ _ Fb0) as [fb Fb].
+    rewrite Fa, Fb. destruct (interp (r_sig b) (r_call b) args s) as [x s'].
+    rewrite (stack_sem_id _ _ _ _ Q Fa x), (stack_sem_id _ _ _ _ Q Fb x). reflexivity.
+  Qed.
+
+  (* same result-or-failure and same state after every operation sequence over the 14 backend
+     operations; with a finite path_timeout for the operations that finish in time *)
+  Theorem fs_backends_equal tbl ops timeout os : forall s,
+    same_calls tbl ops = true -> stacks_known tbl = true ->
+    Forall (fun o : aop => In (fst (fst o)) ops /\ quiet timeout (snd o)) os ->
+    api_run tbl 0 timeout os s = api_run tbl 1 timeout os s.
+  Proof.
+    induction os as [|[[m args] dur] rest IH]; intros s SC SK F; [reflexivity|].
+    inversion F as [|? ? [Hm Q] Fr]; subst. cbn [api_run fst snd] in *.
+    rewrite (api_step_equal tbl ops timeout m args dur s SC SK Hm Q).
+    destruct (api_step tbl 1 timeout (m, args, dur) s) as [x s']. rewrite (IH s' SC SK Fr). reflexivity.
+  Qed.
+End Api.
